@@ -408,6 +408,7 @@ class Domain:
         self.boundary = boundary
         self.grid = grid
         self.pairing = pairing
+        self.max_state_index = None
 
     def outside(self, x: Coordinates) -> bool:
         y = np.atleast_1d(x)
@@ -423,6 +424,7 @@ class Domain:
             res = deque()
             res.appendleft(left_index)
             res.appendleft(right_index)
+            self.max_state_index = max(left_index, right_index)
             return res
 
         # exhaust all possible states and
@@ -447,6 +449,7 @@ class Domain:
             last_size - origin_last_coordinate,
         )
 
+        max_state_index = -1
         for ks in lazy_indices_product(all_sizes):
             ks_shifted = tuple(ki - origin_last_coordinate for ki in ks)
             outside_states = []
@@ -459,6 +462,10 @@ class Domain:
                 )
                 all_states.append(pairing.pair(state_increment))
 
+            max_state_index = max(
+                [max_state_index]
+                + [x for x, y in zip(all_states, outside_states) if not y]
+            )
             if not all(outside_states):
                 frontier_left_index = next(
                     x for x, y in zip(all_states, outside_states) if not y
@@ -476,6 +483,9 @@ class Domain:
                     axis_state_index
                 )  # keep the state on the (last) axis
 
+        # the largest index of an admissible state is not always the index of a frontier state (it depends on the
+        # pairing function), so it is recorded separately: the enumeration of the states stops there
+        self.max_state_index = max_state_index
         return frontier_state_indices
 
 
@@ -489,6 +499,10 @@ class StatesManager:
         frontier_states = domain.compute_total_number_of_states_and_frontier()
         self.frontier_states_indices = frontier_states
         self.max_frontier_indices = max(frontier_states)
+        if domain.max_state_index is not None:
+            self.max_frontier_indices = max(
+                self.max_frontier_indices, domain.max_state_index
+            )
         self.domain = domain
         self.origin_coordinates = grid.origin_coordinate
         self.grid = grid
@@ -526,7 +540,7 @@ class StatesManager:
 
         xx = max(x, self._last_projected_index + 1)
 
-        while xx < self.max_frontier_indices:
+        while xx <= self.max_frontier_indices:
             if not is_outside(state_increment := project(xx)):
                 self._last_projected_index = xx
                 return state_increment, False
